@@ -3,8 +3,7 @@
 # likely to notice first (by file), then all others; stops at the first check that reports a violation.
 # Writes <dir>/kill.txt: "<patch> killed-by=<ID>|SURVIVED-ALL|MACHINERY=<ID>".
 D="$1"
-mkdir -p /verif/.target; exec 9>/verif/.target/build.lock; flock 9; export NLMC_LOCK_HELD=1
-EVBAK=$(mktemp -d /tmp/evbak.XXXXXX); cp -a /verif/evidence/. "$EVBAK"/
+mkdir -p /verif/.target; export NLMC_LOCK_HELD=1
 ALL="C01 C02 C03 C04 C05 C06 C07 C08 C09 C10 C11 C12 C13 C14 C15 C16 C17"
 for P in "$D"/*.diff; do
   name=$(basename "$P" .diff)
@@ -15,9 +14,12 @@ for P in "$D"/*.diff; do
     builtins*) first="C14 C05";; symbols*) first="C09 C01 C17";; *) first="C16 C04 C17";;
   esac
   order="$first"; for id in $ALL; do case " $first " in *" $id "*) ;; *) order="$order $id";; esac; done
+  # the lock is held only while /repo is modified, so that other checks can run in between
+  exec 9>/verif/.target/build.lock; flock 9
   cd /repo || exit 2
   git diff --quiet || { echo "/repo dirty" >&2; exit 2; }
   git apply "$P" || { echo "$name PATCH-DOES-NOT-APPLY" >> "$D/kill.txt"; continue; }
+  EVBAK=$(mktemp -d /tmp/evbak.XXXXXX); cp -a /verif/evidence/. "$EVBAK"/
   verdict="SURVIVED-ALL"
   for id in $order; do
     timeout 900 /verif/check $id --tier quick > /tmp/eval_surv.log 2>&1; rc=$?
@@ -26,5 +28,6 @@ for P in "$D"/*.diff; do
   done
   echo "$name $verdict" >> "$D/kill.txt"
   git -C /repo checkout -- .
+  rm -rf /verif/evidence; mkdir -p /verif/evidence; cp -a "$EVBAK"/. /verif/evidence/; rm -rf "$EVBAK"
+  exec 9>&-
 done
-rm -rf /verif/evidence; mkdir -p /verif/evidence; cp -a "$EVBAK"/. /verif/evidence/; rm -rf "$EVBAK"
